@@ -2011,7 +2011,7 @@ class SQLCompiler(Compiled):
                     else:
                         value_param = bindparam
 
-                    if bindparam.callable:
+                    if value_param.callable:
                         pd[escaped_name] = value_param.effective_value
                     else:
                         pd[escaped_name] = value_param.value
@@ -2045,7 +2045,7 @@ class SQLCompiler(Compiled):
                 else:
                     value_param = bindparam
 
-                if bindparam.callable:
+                if value_param.callable:
                     pd[escaped_name] = value_param.effective_value
                 else:
                     pd[escaped_name] = value_param.value
